@@ -43,6 +43,23 @@ ASSUME = [
 ]
 
 
+# thorough tier: every PAIR of faults for the scenarios that between them contain every creation ladder, every close
+# order's first step, the control interface and a fork; every single fault for the remaining variants
+PAIRS = {"sc=server", "sc=conn-cps", "sc=conn-spc", "sc=refused", "sc=refused-b", "sc=inuse", "sc=badattr-connect",
+         "sc=accept-badattr", "sc=abandon-resolving", "sc=abandon-connecting", "sc=abandon-handshaking", "sc=conn-local",
+         "sc=conn-dns", "sc=dns-fail", "sc=badcert", "sc=conn-b", "sc=pool101", "sc=ctlclient,ctl=on", "sc=conn-cps,ctl=on",
+         "sc=conn-cps,ctl=unwritable", "sc=conn-cps,ctl=on,forkat=4", "sc=server,ctl=on,forkat=1"}
+
+
+# btcp/btls are the lower layers of tcp/tls and uxf shares ux's code: pairs for the layer-specific scenarios only
+PAIRS_LOWER = {"sc=server", "sc=conn-cps", "sc=refused", "sc=inuse", "sc=accept-badattr", "sc=badcert", "sc=conn-b",
+               "sc=conn-cps,ctl=on,forkat=4", "sc=server,ctl=on,forkat=1"}
+
+
+def pairs_for(tp):
+    return PAIRS_LOWER if tp in ("btcp", "btls", "uxf") else PAIRS
+
+
 def scenarios(tp, tier):
     """[(params-without-tp, label)] for one transport."""
     sc = ["server", "conn-cps", "conn-spc", "conn-pcs", "conn-idle", "refused", "refused-b", "inuse", "badattr-server",
@@ -93,7 +110,9 @@ def run(chk, tier, jobs, deadline):
     msgfamily.ensure_pki()
     exe = harnesses.build_explorer_harness("h_life", variant="plain", extra_wraps=EXTRA_WRAPS)
     bound = 1 if q else 2
-    dl = deadline or (110 if q else 1700)
+    # nominal cost on an idle 16-core machine: quick < 1 min, thorough about 5 min; the defaults leave room for a machine
+    # that is shared with other checks (measured: 5-12 min for quick with a load average of 250)
+    dl = deadline or (600 if q else 2700)
     t_end = time.time() + dl
     cfgs = []
     for tp in TPS:
@@ -101,7 +120,7 @@ def run(chk, tier, jobs, deadline):
             p = "tp=%s,%s" % (tp, s)
             if tp in TLSISH:
                 p += "," + msgfamily.certs()
-            b = bound
+            b = bound if (q or s in pairs_for(tp)) else 1
             # the 101-socket scenarios cost ~100x a plain one per execution: pairs only where cheap
             if "pool101" in s and not q and tp in TLSISH:
                 b = 1
@@ -111,17 +130,33 @@ def run(chk, tier, jobs, deadline):
     jobs_each = max(1, jobs // par)
     env = dict(os.environ)
     env["MCX_NO_PIN"] = "1"
+    exes = {"plain": exe}
+    envs = {"plain": env}
+    if not q:
+        # second pass, every single fault again in the sanitizer build: memory errors on the error ladders (use after free,
+        # double free) become crash verdicts, and LeakSanitizer is asked at the end of every execution for blocks that
+        # nothing points to any more
+        exes["asan"] = harnesses.build_explorer_harness("h_life", variant="asan", extra_wraps=EXTRA_WRAPS)
+        envs["asan"] = harnesses.asan_env()
+        envs["asan"]["ASAN_OPTIONS"] = envs["asan"]["ASAN_OPTIONS"].replace("detect_leaks=0", "detect_leaks=1")
+        envs["asan"]["MCX_NO_PIN"] = "1"
+        for tp, p, b in list(cfgs):
+            if "pool101" not in p:
+                cfgs.append((tp, p + ",lsan=1", 1))
 
     def one(cfg):
         tp, p, b = cfg
         left = t_end - time.time()
         if left < 3:
             return cfg, None
-        return cfg, harnesses.explore(exe, p, b, left, jobs=jobs_each, env=env)
+        v = "asan" if "lsan=1" in p else "plain"
+        return cfg, harnesses.explore(exes[v], p, b, left, jobs=jobs_each, env=envs[v])
 
     # long ones first so that the tail is short; if the tier deadline cuts the run, the fork/ctl variants go first
     def prio(c):
         tp, p, b = c
+        if "lsan=1" in p:
+            return 4
         if "pool101" in p:
             return 0
         if "forkat=" in p or "ctl=" in p:
@@ -169,10 +204,13 @@ def run(chk, tier, jobs, deadline):
             if not v.get("reproduced"):
                 chk.broke("%s: violation %s did not reproduce deterministically on replay" % (p, sig))
                 continue
-            replay = dict(harness=os.path.basename(exe), params=p, build="plain", choices=v["choices"],
+            replay = dict(harness=os.path.basename(res["exe"]), params=p, build="asan" if "lsan=1" in p else "plain",
+                          choices=v["choices"],
                           non_default_choices=v["non_default"], deviations=v["deviations"],
                           observations=v.get("log", "").splitlines()[-80:], stderr=v.get("stderr", "")[:2000],
-                          replay_cmd="%s --replay-choices %s --params '%s'" % (exe, v["choices"] or "''", p))
+                          replay_cmd="%s%s --replay-choices %s --params '%s'" %
+                                     ("ASAN_OPTIONS=%s " % envs["asan"]["ASAN_OPTIONS"] if "lsan=1" in p else "", res["exe"],
+                                      v["choices"] or "''", p))
             chk.finding(sig, v["text"] + "  [scenario: %s; %d injected fault(s)]" % (p, v["deviations"]), replay)
         for i in res.get("infos", []):
             chk.info(i["key"], i["text"])
@@ -199,7 +237,10 @@ def run(chk, tier, jobs, deadline):
                 fault_points_total=tot["points"], configurations=len(cfgs), transports=len(TPS),
                 scenarios_per_transport={tp: len(scenarios(tp, tier)) for tp in TPS},
                 bound_completed=bound if completed_all else None, fault_bound=bound,
+                configurations_at_bound_2=sum(1 for c in cfgs if c[2] == 2),
+                configurations_at_bound_1=sum(1 for c in cfgs if c[2] == 1),
                 max_fault_points_in_one_run=fault_points_max,
+                sanitizer_pass_configurations=sum(1 for c in cfgs if "lsan=1" in c[1]), leak_sanitizer_checks=counters[6],
                 api_calls_made=counters[0], faults_injected=counters[1], scenario_repetitions=counters[2],
                 descriptor_table_comparisons=counters[3], heap_rechecks=counters[4], forks=counters[5],
                 per_configuration=per_cfg, samples=samples, exhaustive=completed_all and not chk.deadline_hit)
